@@ -74,6 +74,7 @@ def cases(tier, seed):
         for cont in CONTAINERS:
             for t in itertools.product(INVERTIBLE[fam], repeat=2):
                 out.append(('inv', fam, ('diag', cont, tuple(L(n, i) for i, n in enumerate(t)))))
+            out.append(('inv', fam, ('diag', cont, tuple(L(n, i) for i, n in enumerate(INVERTIBLE[fam][:3])))))
     # adjacent block operators
     prods = []
     for fam in ('vec',):
